@@ -449,6 +449,34 @@ func cmdCheck(args []string) int {
 			reported = append(reported, c)
 		}
 	}
+	// differential validation of the encoding: witness inputs of passing paths are
+	// replayed natively and must pass there too
+	validated := 0
+	nval := 1
+	if tier == "thorough" {
+		nval = 3
+	}
+	for _, rr := range results {
+		if rr.run.NoReplay || rr.run.Race || len(reported) > 0 {
+			continue
+		}
+		for k, d := range rr.st.SampleDraws {
+			if k >= nval {
+				break
+			}
+			tape := &replayTape{Property: id, Harness: rr.run.Entry, Pkg: rr.run.Pkg, PkgName: rr.run.PkgName, Files: append(append([]string{}, rr.run.Files...), rr.run.NatFiles...),
+				Params: rr.run.Params, Draws: d, Expect: "done", Kind: "done", APIs: rr.run.APIs, Patches: rr.run.NativePatches}
+			tapePath := filepath.Join(verifRoot(), "replays", fmt.Sprintf("%s-%s-witness%d.json", id, rr.run.Name, k))
+			data, _ := json.MarshalIndent(tape, "", " ")
+			os.WriteFile(tapePath, data, 0o644)
+			o := nativeReplay(repo, tape, tapePath)
+			if o.Outcome == "done" {
+				validated++
+			} else {
+				inconclusive = append(inconclusive, fmt.Sprintf("%s: witness input of a passing path does not pass natively (native outcome: %s %s) — encoding mismatch; tape %s", rr.run.Name, o.Outcome, o.Detail, tapePath))
+			}
+		}
+	}
 	exit := 0
 	for _, c := range reported {
 		if c.known {
@@ -520,7 +548,8 @@ func cmdCheck(args []string) int {
 	sort.Strings(ns)
 	cov["states"] = paths
 	cov["transitions"] = steps
-	cov["traces_validated_against_impl"] = replayed
+	cov["traces_validated_against_impl"] = validated
+	cov["counterexamples_replayed"] = replayed
 	cov["samples"] = samples
 	cov["evaluations"] = queries
 	cov["distinct_nontrivial"] = distinct
